@@ -59,6 +59,7 @@ def plan(tier, seed):
     TIER = tier
     p = cfgp()
     base, nstates, ntrans = gram.grammar_cases(p["depth"])
+    nstates_base, ntrans_base = gram.grammar_cases(p["depth"], with_sharp=False)[1:]
     cases = [dict(c, mode="free") for c in base]
     if p["extra"]:
         b3, s3, t3 = gram.grammar_cases(2, heads=("S", "A", "B"), with_sharp=False)
@@ -66,6 +67,11 @@ def plan(tier, seed):
         cases += [dict(c, mode="free") for c in b3 + b4]
         nstates += s3 + s4
         ntrans += t3 + t4
+        # thorough: every grammar of exactly 4 rules (BFS depth 4), free weights only
+        b5, s5, t5 = gram.grammar_cases(4, with_sharp=False)
+        cases += [dict(c, mode="free") for c in b5 if len(c["rules"]) == 4]
+        nstates += s5 - nstates_base
+        ntrans += t5 - ntrans_base
     for c in base:
         cases.append(dict(c, mode="num"))
         if len(c["rules"]) <= p["sched_depth"] or c["name"].startswith("sharp"):
